@@ -236,19 +236,19 @@ def main():
 
         # ---- 6. the tie or a proof is broken but no oracle failed yet: search, then report
         if (proof_broken or corr_broken) and not violations:
+            # every broken correspondence that matches a known finding is reported as such (and needs no search)
+            remaining = []
+            for leg, profile, c, why in corr_broken:
+                k = classify_known(pid, leg, c, "corr", known) if (leg and c) else None
+                if k:
+                    known_hits.append(k)
+                else:
+                    remaining.append((leg, profile, c, why))
             found = False
-            if ok_h and ok_corr_build:
+            if (proof_broken or remaining) and ok_h and ok_corr_build:
                 budget = 60 if tier == "quick" else 300
                 found = search(pid, spec, seed, tier, workdir, known, violations, known_hits, budget)
             if not found and not violations:
-                # every broken correspondence that matches a known finding is reported as such
-                remaining = []
-                for leg, profile, c, why in corr_broken:
-                    k = classify_known(pid, leg, c, "corr", known) if (leg and c) else None
-                    if k:
-                        known_hits.append(k)
-                    else:
-                        remaining.append((leg, profile, c, why))
                 if proof_broken or remaining:
                     payload = {"property": pid, "no_failing_input_found": True,
                                "broken_proof": notes if proof_broken else None,
@@ -344,6 +344,8 @@ def search(pid, spec, seed, tier, workdir, known, violations, known_hits, budget
     while time.time() - t0 < budget and not violations:
         rnd += 1
         for li, leg in enumerate(spec["legs"]):
+            if rnd > 1 and time.time() - t0 >= budget:
+                break
             fam = load_family(leg["family"])
             rng = random.Random("%d/%s/%d/search%d" % (seed, pid, li, rnd))
             # a leg may name a generator focus and extra (statistical) oracles that are used only while searching
